@@ -68,7 +68,9 @@ def checkPlacement (outs ptrs : List Nat) (inputStart : Nat) (indexed : List Str
       | some (j, o) => ix == s!"{j}:{o}"
       | none => false
 
-/-- no runic, no locked input; an inscribed input only for a reinscription, and then one -/
+/-- no runic, no locked input; an inscribed input only for a reinscription, only one, and only if
+    every inscription in it sits on the sat being reinscribed (first digit `1`; `2` = the output also
+    carries an inscription elsewhere, which the commit would move) -/
 def checkCommit (reinscribe : Bool) (flags : List String) : Bool :=
   flags.all (fun f => f == "000" || (reinscribe && f == "100")) &&
     (flags.filter (· == "100")).length ≤ 1
